@@ -1,6 +1,7 @@
 """C13 — The formatter preserves programs (static necessary clauses; DESIGN §3 C13). Thin."""
 import re
 from .lib import *
+from .lib import _tok_has
 
 NEEDS_FLOW = False
 EXPLANATION = (
@@ -31,6 +32,10 @@ def run(ctx, rep):
     rep.guarded("R13-PREC", lambda: r_prec(sh, rep, tabs))
     rep.guarded("R13-ASSOC", lambda: r_assoc(sh, rep, tabs))
     rep.guarded("R13-VARIANTS", lambda: r_variants(sh, rep))
+    rep.rule("R13-ESC", "format::escape is a per-character table and the inverse of the lexer's string escapes", floor=6)
+    rep.guarded("R13-ESC", lambda: r_esc(sh, rep))
+    rep.rule("R13-COMMENTS", "comments popped off the formatter's cursor into a local are used on every following path", floor=5)
+    rep.guarded("R13-COMMENTS", lambda: r_comments(sh, rep))
 
 
 def _binops(sh):
@@ -251,3 +256,129 @@ def r_variants(sh, rep):
                     explicit.add(last(h))
         missing = sorted(variants - explicit)
         rep.check(catch is None and not missing, "R13-VARIANTS", "Formatter::%s#total" % name, sh.loc(FMT, m), "Formatter::%s %s: a syntax form is printed by a fallback that cannot know its concrete syntax" % (name, ("has a catch-all arm swallowing %s" % missing) if catch is not None else ("has no arm for %s" % missing)), sample={"variants": len(variants)})
+
+
+# ---------------------------------------------------------------------------------------------------------
+# R13-ESC: the formatter's escaping of string literals is the inverse of the lexer's escape table, per character
+# ---------------------------------------------------------------------------------------------------------
+def _lexer_escapes(sh):
+    """{escape letter: character it denotes} from `let escape = just('\\\\').ignore_then(just(..).or(..).or(just('n').to('\\n'))..)`"""
+    f = None
+    for q, fn in all_fns(sh.file(LEX)):
+        for n in walk(fn["body"]) if "body" in fn else []:
+            if n["k"] == "Local" and n["pat"]["k"] == "Ident" and n["pat"]["name"] == "escape" and n.get("init") is not None:
+                f = n["init"]
+    if f is None:
+        raise AnchorMissing("let escape = .. in lexer.rs")
+    out = {}
+    for c in walk(f):
+        if c["k"] == "Call" and call_name(c) == "just" and c["args"] and c["args"][0]["k"] == "Lit" and c["args"][0].get("lk") == "char":
+            out.setdefault(c["args"][0]["v"], c["args"][0]["v"])
+    for c in walk(f):
+        if c["k"] == "MethodCall" and c["m"] == "to" and c["recv"]["k"] == "Call" and call_name(c["recv"]) == "just" and c["args"] and c["args"][0]["k"] == "Lit":
+            out[c["recv"]["args"][0]["v"]] = c["args"][0]["v"]
+    # the leading just('\\') is the escape introducer itself, and also an escapable character (`\\\\`)
+    return out
+
+
+def r_esc(sh, rep):
+    lex = _lexer_escapes(sh)  # letter -> char
+    f = find_fn(sh.file(FMT), "escape")
+    rep.touched(FMT, "format::escape")
+    ms = [m for m in matches_in(f["body"]) if any(a["pat"]["k"] == "PLit" and a["pat"]["e"].get("lk") == "char" for a in m["arms"])]
+    if not ms:
+        raise AnchorMissing("match on a character in format::escape")
+    m = ms[0]
+    var = sh.nsrc(FMT, m["e"])
+    table = {}
+    for a in m["arms"]:
+        if a["pat"]["k"] != "PLit":
+            # default arm: the character itself, unchanged
+            body = sh.nsrc(FMT, a["body"])
+            rep.check(body in ("vec![%s]" % var, "escaped.push(%s)" % var, "%s.to_string()" % var, "vec![c]"), "R13-ESC", "escape#default-arm-is-identity", sh.loc(FMT, a), "every other character must be printed unchanged (found `%s`)" % body[:40], nontrivial=False)
+            continue
+        ch = a["pat"]["e"]["v"]
+        nested = [n for n in walk(a["body"]) if n["k"] in ("Match", "If")]
+        rep.check(not nested, "R13-ESC", "escape#%r#context-free" % ch, sh.loc(FMT, a), "the escape of %r depends on something besides the character itself (a nested %s in the arm): escaping must be a per-character function, otherwise a literal such as a backslash followed by `n` is printed as an escape sequence it does not contain" % (ch, nested[0]["k"].lower() if nested else ""))
+        lits = [n["v"] for n in walk(a["body"]) if n["k"] == "Lit" and n.get("lk") in ("char", "str")]
+        out = "".join(lits)
+        if var in [n["p"] for n in walk(a["body"]) if n["k"] == "Path"]:
+            out += ch
+        table[ch] = out
+    for letter, ch in sorted(lex.items()):
+        want = "\\" + letter
+        got = table.get(ch)
+        rep.check(got == want, "R13-ESC", "escape#%r#inverse-of-lexer" % ch, sh.loc(FMT, m), "the lexer reads `%s` as %r, so the formatter must print %r as `%s`; it prints `%s`" % (want, ch, ch, want, got), sample={"printed": got})
+    extra = sorted(set(table) - set(lex.values()))
+    rep.check(not extra, "R13-ESC", "escape#no-escape-the-lexer-cannot-read", sh.loc(FMT, m), "the formatter escapes %r, for which the lexer has no escape sequence" % extra, nontrivial=False)
+
+
+# ---------------------------------------------------------------------------------------------------------
+# R13-COMMENTS: comments taken off the cursor are printed on every path
+# ---------------------------------------------------------------------------------------------------------
+POPPERS = {"pop_comments", "pop_doc_comments", "pop_empty_lines"}
+
+
+def _mentions(node, name):
+    return any(n["k"] == "Path" and n["p"] == name for n in walk(node)) or any(n["k"] == "Macro" and "tokens" in n and _tok_has(n["tokens"], name) for n in walk(node))
+
+
+def _used_on_every_path(stmts, name):
+    """is `name` mentioned on every path through the statement list? straight-line mention -> yes; a branch counts only if
+    every alternative mentions it (or returns its own value built from it)"""
+    for st in stmts:
+        e = st.get("e") if st["k"] == "ExprStmt" else st.get("init") if st["k"] == "Local" else st
+        if e is None:
+            continue
+        if e["k"] == "If":
+            if _mentions(e["cond"], name):
+                return True
+            t = _used_on_every_path(e["then"]["stmts"], name)
+            el = e.get("else")
+            if el is None:
+                continue
+            el_ok = _used_on_every_path(el["stmts"], name) if el["k"] == "Block" else _used_on_every_path([{"k": "ExprStmt", "e": el}], name)
+            if t and el_ok:
+                return True
+            if t != el_ok:
+                return False
+            continue
+        if e["k"] == "Match":
+            if _mentions(e["e"], name):
+                return True
+            res = []
+            for a in e["arms"]:
+                b = a["body"]
+                res.append(_used_on_every_path(b["stmts"], name) if b["k"] == "Block" else _mentions(b, name))
+            if all(res):
+                return True
+            if any(res):
+                return False
+            continue
+        if _mentions(e, name):
+            return True
+    return False
+
+
+def r_comments(sh, rep):
+    fj = sh.file(FMT)
+    n = 0
+    for q, f in all_fns(fj):
+        if "body" not in f:
+            continue
+
+        def blocks(node):
+            for b in walk(node):
+                if b["k"] == "Block":
+                    yield b
+
+        for b in blocks(f["body"]):
+            for i, st in enumerate(b["stmts"]):
+                if st["k"] == "Local" and st["pat"]["k"] == "Ident" and st.get("init") is not None and st["init"]["k"] == "MethodCall" and st["init"]["m"] in ("pop_comments", "pop_doc_comments"):
+                    name = st["pat"]["name"]
+                    if name.startswith("_"):
+                        continue
+                    n += 1
+                    ok = _used_on_every_path(b["stmts"][i + 1 :], name)
+                    rep.check(ok, "R13-COMMENTS", "%s#%s#printed-on-every-path" % (q, name), sh.loc(FMT, st), "%s takes the comments before this position off the cursor (`let %s = self.%s(..)`) but a path through the following code never uses `%s`: those comments are dropped from the formatted program and, the cursor having advanced, are not printed anywhere else" % (q, name, st["init"]["m"], name), sample={"popper": st["init"]["m"]})
+    return n
